@@ -437,6 +437,32 @@ def do_op(ctx, aid, oi, table, op):
         t2 = ctx.table((s.current.proc.pid, len(ctx.gws) - 1))
         t2["__gw__"] = gw
         return ("gw", str(gw.id))
+    if k == "gwexit_id":
+        try:
+            gw = ctx.group[op[1]]
+        except KeyError:
+            return ("nogw",)
+        gw.exit()
+        return ("ok",)
+    if k == "groupsnap":
+        # one consistent look at the container protocol (no sync point inside)
+        g = ctx.group
+        ids = [str(gw.id) for gw in g]
+        n = len(g)
+        by_index = []
+        for i in range(n):
+            try:
+                by_index.append(str(g[i].id))
+            except Exception as e:  # noqa: BLE001
+                by_index.append("!" + type(e).__name__)
+        member = [bool(i in g) for i in ids]
+        by_id = []
+        for i in ids:
+            try:
+                by_id.append(str(g[i].id))
+            except Exception as e:  # noqa: BLE001
+                by_id.append("!" + type(e).__name__)
+        return ("snap", ids, n, by_index, member, by_id, bool("no-such-id" in g))
     if k == "grouplen":
         return ("val", len(ctx.group))
     if k == "now":
@@ -476,14 +502,23 @@ def do_op(ctx, aid, oi, table, op):
         return ("ok", len(outs))
     if k == "mkfile_w":
         # ["mkfile_w", ch, writes, proxyclose, write_after_close]
-        f = _ch(table, op[1]).makefile("w", proxyclose=bool(op[3]))
+        ch = _ch(table, op[1])
+        f = ch.makefile("w", proxyclose=bool(op[3]))
         for wdata in op[2]:
             if wdata == "#flush":
                 f.flush()
             else:
                 f.write(_filedata(wdata))
         f.close()
-        return ("ok",)
+        closed = bool(ch.isclosed())
+        late = None
+        if len(op) > 4 and op[4]:
+            try:
+                f.write(_filedata(op[4]))
+                late = "ok"
+            except OSError:
+                late = "OSError"
+        return ("wfile", closed, late)
     if k == "mc_make":
         # ["mc_make", name, [labels]]
         multi = ctx.w.mods["multi"]
